@@ -6,6 +6,7 @@
 
 mod b_cluster;
 mod b_linear;
+mod b_svm;
 mod fw;
 
 use fw::*;
@@ -25,6 +26,12 @@ fn specs() -> Vec<BuilderSpec> {
         b_linear::logistic_spec(),
         b_linear::multi_logistic_spec(),
         b_linear::tweedie_spec(),
+        b_svm::svm_c_bool_spec(),
+        b_svm::svm_nu_bool_spec(),
+        b_svm::svm_c_pr_spec(),
+        b_svm::svm_nu_pr_spec(),
+        b_svm::svm_regression_c_spec(),
+        b_svm::svm_regression_nu_spec(),
     ]
 }
 
